@@ -443,6 +443,51 @@ def superior_specs(draw) -> dict:
     return {"L": length, "circular": circular, "genes": genes, "hits": hits, "rules": rules_spec}
 
 
+@st.composite
+def extender_specs(draw) -> dict:
+    """ focused on EXTENDERS: pairwise disjoint genes on a (mostly circular) record, an anchor group placed anywhere
+        (often right after or across the origin) and chains of extender-satisfying genes on both sides whose gaps are
+        drawn around the cutoff, so that extension has to run over the origin in either direction """
+    length = draw(st.sampled_from([120, 300, 900]))
+    circular = draw(st.integers(0, 4)) > 0
+    cutoff = draw(st.sampled_from([4, 9, 20]))
+    gene_size = draw(st.sampled_from([3, 6]))
+    count = draw(st.integers(4, 10))
+    gaps = [draw(st.sampled_from([0, 1, cutoff - 1, cutoff - 1, cutoff, cutoff + 1, 2 * cutoff + 3])) for _ in range(count)]
+    total = sum(gaps) + count * gene_size
+    if total >= length:
+        length = total + draw(st.sampled_from([1, cutoff - 1, cutoff + 5]))
+    offset = draw(st.one_of(st.integers(0, length - 1), st.sampled_from([0, length - gene_size, length - 1, length // 2])))
+    if not circular:
+        offset = draw(st.integers(0, length - total))
+    anchor_index = draw(st.integers(0, count - 1))
+    extender = draw(st.sampled_from([["id", "b"], ["cds", ["and", [["id", "b"], ["id", "c"]]]], ["cds", ["or", [["id", "b"], ["id", "c"]]]]]))
+    genes, hits = [], {}
+    pos = 0
+    for index in range(count):
+        pos += gaps[index]
+        start = (offset + pos) % length if circular else offset + pos
+        end = start + gene_size
+        strand = draw(st.sampled_from([1, -1]))
+        if end > length:
+            parts = [[start, length], [0, end - length]]
+            if strand == -1:
+                parts.reverse()
+            loc = {"parts": parts, "strand": strand, "kind": "span"}
+        else:
+            loc = {"parts": [[start, end]], "strand": strand, "kind": "simple"}
+        name = f"g{index}"
+        genes.append({"name": name, "loc": loc})
+        if index == anchor_index or (abs(index - anchor_index) == 1 and draw(st.integers(0, 3)) == 0):
+            hits[name] = {"a": 100}
+        else:
+            hits[name] = {p: 100 for p in draw(st.sampled_from([["b"], ["b", "c"], ["b"], ["c"], [], ["d"]]))}
+        pos += gene_size
+    rules_spec = [{"name": "r0", "conditions": ["id", "a"], "superiors": [], "extenders": extender, "cutoff": cutoff,
+                   "neighbourhood": draw(st.sampled_from([0, 2, cutoff]))}]
+    return {"L": length, "circular": circular, "genes": genes, "hits": hits, "rules": rules_spec}
+
+
 def enum_cases(max_len: int):
     def cases():
         for length in range(9, max_len + 1):
@@ -474,4 +519,5 @@ def enum_cases(max_len: int):
 def run(ctx) -> None:
     ctx.enum("detection_enum", enum_cases(ctx.pick(11, 14)), shards=ctx.pick(16, 16))
     ctx.hyp("detection", detection_specs(), max_examples=ctx.pick(2500, 40000), shards=ctx.pick(8, 16))
+    ctx.hyp("detection", extender_specs(), max_examples=ctx.pick(1200, 15000), shards=ctx.pick(8, 16))
     ctx.hyp("detection", superior_specs(), max_examples=ctx.pick(1500, 20000), shards=ctx.pick(8, 16))
